@@ -12,12 +12,37 @@ open GoRes GoRes.Diff
 
 variable {α : Type} [DecidableEq α] [Inhabited α]
 
+set_option linter.unusedSectionVars false
+set_option linter.unusedVariables false
+
 /-- **collection edit script**: remove/add events turn the old collection into the new one,
 with every index in range at the moment it is applied (`applyAll` fails on an out-of-range
 index), whatever the table says -/
 theorem collection_edit_script (tbl : List α → List α → Nat → Nat → Nat) (a b : List α) :
     applyAll a (collectionDiffWith tbl a b) = some b := by
-  sorry
+  unfold collectionDiffWith
+  simp only
+  split
+  · rename_i h
+    have h1 := take_commonPrefix a b
+    rw [h.1] at h1
+    have h2 := h.2
+    rw [h.1] at h2
+    rw [List.take_length, h2, List.take_length] at h1
+    simp [applyAll, h1]
+  · obtain ⟨p, q, hp, ha, hb⟩ := trim_decomp a b
+    obtain ⟨ops, hs, ht, hev⟩ := walk_events
+      ((a.drop (commonPrefix a b)).take (a.length - commonPrefix a b -
+        commonPrefix (a.drop (commonPrefix a b)).reverse (b.drop (commonPrefix a b)).reverse))
+      ((b.drop (commonPrefix a b)).take (b.length - commonPrefix a b -
+        commonPrefix (a.drop (commonPrefix a b)).reverse (b.drop (commonPrefix a b)).reverse))
+      (tbl _ _) (commonPrefix a b)
+    simp only [addEvs] at hev
+    rw [hev]
+    conv => lhs; arg 1; rw [ha]
+    conv => rhs; rw [hb]
+    rw [← hs, ← ht, ← hp]
+    exact applyAll_script ops p q
 
 /-- the shipped diff (with the real LCS table) is an instance -/
 theorem collectionDiff_correct (a b : List α) : applyAll a (collectionDiff a b) = some b :=
@@ -26,7 +51,7 @@ theorem collectionDiff_correct (a b : List α) : applyAll a (collectionDiff a b)
 /-- a mutation that does not alter the served collection publishes nothing -/
 theorem collection_silent (tbl : List α → List α → Nat → Nat → Nat) (a : List α) :
     collectionDiffWith tbl a a = [] := by
-  sorry
+  simp [collectionDiffWith, commonPrefix_self]
 
 /-- keys of a model are unique (a JSON object decoded into a Go map) -/
 def NodupKeys (m : Model α) : Prop := (m.map (·.1)).Nodup
@@ -34,17 +59,45 @@ def NodupKeys (m : Model α) : Prop := (m.map (·.1)).Nodup
 /-- **model edit script**: the change event turns the old model into the new one (as maps) -/
 theorem model_edit_script (before after : Model α) (hb : NodupKeys before) (ha : NodupKeys after) (k : Str) :
     mget (applyChange before (modelDiff before after)) k = mget after k := by
-  sorry
+  apply mget_applyChange
+  · rintro ⟨k', v⟩ he
+    rcases (mem_modelDiff _ _ _ _).1 he with ⟨rfl, _, hn⟩ | ⟨x, rfl, hm, _⟩
+    · exact hn.symm
+    · exact (mget_of_mem _ ha _ _ hm).symm
+  · by_cases h : ∃ e ∈ modelDiff before after, e.1 = k
+    · exact Or.inr h
+    · left
+      cases hA : mget after k with
+      | none =>
+        cases hB : mget before k with
+        | none => rfl
+        | some x =>
+          exfalso; apply h
+          exact ⟨(k, none), (mem_modelDiff _ _ _ _).2 (Or.inl ⟨rfl, ⟨x, mem_of_mget _ _ _ hB⟩, hA⟩), rfl⟩
+      | some x =>
+        by_cases hB : mget before k = some x
+        · exact hB
+        · exfalso; apply h
+          exact ⟨(k, some x), (mem_modelDiff _ _ _ _).2 (Or.inr ⟨x, rfl, mem_of_mget _ _ _ hA, hB⟩), rfl⟩
 
 /-- removed keys are sent as delete actions, and only keys whose value differs are sent -/
 theorem model_change_minimal (before after : Model α) (hb : NodupKeys before) (ha : NodupKeys after)
     (k : Str) (v : Option α) (h : (k, v) ∈ modelDiff before after) :
     (v = none → mget before k ≠ none ∧ mget after k = none) ∧
     (∀ x, v = some x → mget after k = some x ∧ mget before k ≠ some x) := by
-  sorry
+  rcases (mem_modelDiff _ _ _ _).1 h with ⟨rfl, ⟨x, hm⟩, hn⟩ | ⟨x, rfl, hm, hne⟩
+  · refine ⟨fun _ => ⟨?_, hn⟩, fun x hx => by simp at hx⟩
+    rw [mget_of_mem _ hb _ _ hm]; simp
+  · refine ⟨fun hx => by simp at hx, fun y hy => ?_⟩
+    injection hy with hy; subst hy
+    exact ⟨mget_of_mem _ ha _ _ hm, hne⟩
 
 theorem model_silent (m : Model α) (h : NodupKeys m) : modelDiff m m = [] := by
-  sorry
+  apply List.eq_nil_iff_forall_not_mem.2
+  rintro ⟨k, v⟩ he
+  rcases (mem_modelDiff _ _ _ _).1 he with ⟨rfl, ⟨x, hm⟩, hn⟩ | ⟨x, rfl, hm, hne⟩
+  · rw [mget_of_mem _ h _ _ hm] at hn; simp at hn
+  · exact hne (mget_of_mem _ h _ _ hm)
 
 /-- what a get serves for a stored value / default -/
 def served (dflt : Option (Val α)) (stored : Option (Val α)) : Option (Val α) :=
@@ -63,7 +116,25 @@ theorem handler_coherent_collection (dflt : Option (List α)) (before after : Op
     | .create, none, some _ => True
     | .delete, some _, none => True
     | _, _, _ => False := by
-  sorry
+  have key : ∀ sb sa : List α,
+      match (if (collectionDiff sb sa).isEmpty then Out.nothing else Out.coll (collectionDiff sb sa)),
+        some sb, some sa with
+      | .coll evs, some sb, some sa => applyAll sb evs = some sa
+      | .nothing, some sb, some sa => sb = sa
+      | .nothing, none, none => True
+      | .create, none, some _ => True
+      | .delete, some _, none => True
+      | _, _, _ => False := by
+    intro sb sa
+    have h := collectionDiff_correct sb sa
+    by_cases he : (collectionDiff sb sa).isEmpty = true
+    · rw [if_pos he]
+      simp only [List.isEmpty_iff] at he
+      rw [he] at h
+      show sb = sa
+      simpa [applyAll] using h
+    · rw [if_neg he]; exact h
+  cases before <;> cases after <;> cases dflt <;> first | exact key _ _ | exact True.intro
 
 theorem handler_coherent_model (dflt : Option (Model α)) (before after : Option (Model α))
     (hd : ∀ m, dflt = some m → NodupKeys m) (hb : ∀ m, before = some m → NodupKeys m)
@@ -77,9 +148,34 @@ theorem handler_coherent_model (dflt : Option (Model α)) (before after : Option
     | .create, none, some _ => True
     | .delete, some _, none => True
     | _, _, _ => False := by
-  sorry
+  have key : ∀ sb sa : Model α, NodupKeys sb → NodupKeys sa →
+      match (if (modelDiff sb sa).isEmpty then Out.nothing else Out.change (modelDiff sb sa)),
+        some sb, some sa with
+      | .change ch, some sb, some sa => ∀ k, mget (applyChange sb ch) k = mget sa k
+      | .nothing, some sb, some sa => ∀ k, mget sb k = mget sa k
+      | .nothing, none, none => True
+      | .create, none, some _ => True
+      | .delete, some _, none => True
+      | _, _, _ => False := by
+    intro sb sa hsb hsa
+    have h := model_edit_script sb sa hsb hsa
+    by_cases he : (modelDiff sb sa).isEmpty = true
+    · rw [if_pos he]
+      simp only [List.isEmpty_iff] at he
+      rw [he] at h
+      exact h
+    · rw [if_neg he]; exact h
+  cases before <;> cases after <;> cases dflt <;>
+    first
+    | exact True.intro
+    | exact key _ _ (hb _ rfl) (ha _ rfl)
+    | exact key _ _ (hb _ rfl) (hd _ rfl)
+    | exact key _ _ (hd _ rfl) (ha _ rfl)
+    | exact key _ _ (hd _ rfl) (hd _ rfl)
 
 /-! ## non-vacuity -/
 example : applyAll [1, 2, 3, 4] ([.remove 2, .remove 0, .add 9 1, .add 1 3] : List (Ev Nat)) = some [2, 9, 4, 1] := by decide
+/-- the shipped diff on a concrete pair (prefix `1` and suffix `4` trimmed, one removal, two adds) -/
+example : collectionDiff [1, 2, 3, 4] [1, 9, 3, 7, 4] = [.remove 1, .add 9 1, .add 7 3] := by decide
 
 end GoRes.Props.C10
